@@ -1,5 +1,7 @@
-from .rules import version, layout
+from .rules import version, layout, opcodes as o
 NOT_APPLICABLE = {}
 PROPS = {
- "C01": {"rules": version.RULES + layout.RULES, "explanation": "x", "assumptions": [], "decides": [], "not_decided": []},
+ "C01": {"rules": version.RULES + layout.RULES + [o.opc3_prologue, o.opc3b_fillers, o.int_intervals, o.exi1_producers, o.join1], "explanation": "x", "assumptions": [], "decides": [], "not_decided": []},
+ "C02": {"rules": [o.opc1_cache_normalisation, o.exi2_consumers, o.int_intervals], "explanation": "x", "assumptions": [], "decides": [], "not_decided": []},
+ "C08": {"rules": [o.opc2_target_decoder, o.opc3_prologue, o.opc3b_fillers, o.line1, o.fall1], "explanation": "x", "assumptions": [], "decides": [], "not_decided": []},
 }
